@@ -4,6 +4,9 @@
 //   `> ` lines: the request for the Lean driver (layer pair), including every (argument, value) pair of the external
 //               functions Dawson and erf the real computation called (logged through linker wrappers);
 //   `< V <nA> <nB> <bits>*`: the block the library returns.
+//   `< S <bits>*`: the per-l screening estimates of the real ECPIntegral::estimate_type2 for this pair (the request carries a `screens`
+//               line, so the model's estimates are compared bit for bit as well: an estimate that changes without crossing the
+//               threshold on the sampled pairs would otherwise be invisible in the blocks)
 #include "common.hpp"
 #include <sstream>
 #include "libecpint/mathutil.hpp"
@@ -67,6 +70,7 @@ int main() {
 			o << "\n";
 		}
 		o << "> shift " << sa << " " << sb << "\n";
+		o << "> screens\n";
 		auto dump = [&](const char *tag, std::map<unsigned long long, double> &m) {
 			size_t n = 0;
 			for (auto &kv : m) { if (n % 400 == 0) o << (n ? "\n" : "") << "> ext " << tag; char b[32]; snprintf(b, sizeof b, "%016llx", kv.first); o << " " << b << " " << bits(kv.second); n++; }
@@ -78,6 +82,22 @@ int main() {
 #else
 		o << "> sw 1 1 1 1 1 0\n> end\n";
 #endif
+		{
+			// the pair data as compute_shell_pair prepares it for estimate_type2 (fields the estimate reads)
+			ShellPairData d;
+			const double* C = U.center();
+			for (int i = 0; i < 3; i++) { d.A[i] = sh[0].center()[i] - C[i]; d.B[i] = sh[1].center()[i] - C[i]; }
+			d.LA = sh[0].am() + sa; d.LB = sh[1].am() + sb;
+			d.maxLBasis = d.LA > d.LB ? d.LA : d.LB;
+			d.ncartA = (d.LA+1)*(d.LA+2)/2; d.ncartB = (d.LB+1)*(d.LB+2)/2;
+			d.A2 = d.A[0]*d.A[0] + d.A[1]*d.A[1] + d.A[2]*d.A[2]; d.Am = sqrt(d.A2); d.A_on_ecp = (d.Am < 1e-6);
+			d.B2 = d.B[0]*d.B[0] + d.B[1]*d.B[1] + d.B[2]*d.B[2]; d.Bm = sqrt(d.B2); d.B_on_ecp = (d.Bm < 1e-6);
+			double R[3] = {d.A[0] - d.B[0], d.A[1] - d.B[1], d.A[2] - d.B[2]};
+			d.RAB2 = R[0]*R[0] + R[1]*R[1] + R[2]*R[2]; d.RABm = sqrt(d.RAB2);
+			std::vector<double> sc(U.getL() + 1, 0.0);
+			eng.estimate_type2(U, sh[0], sh[1], d, sc.data());
+			o << "< S"; for (double v : sc) o << " " << bits(v); o << "\n";
+		}
 		o << "< W " << warn1 << " " << warn2 << "\n";
 		o << "< V " << V.dims[0] << " " << V.dims[1]; for (double v : V.data) o << " " << bits(v); o << "\n< end\n";
 	}
